@@ -156,9 +156,16 @@ impl Prop for C14 {
     const ID: &'static str = "C14";
 
     fn lanes(tier: Tier) -> Vec<Lane> {
-        vec![Lane::new("main", tier.pick(400_000, 10_000_000))
+        vec![
+            Lane::new("main", tier.pick(400_000, 10_000_000))
             .cap(tier.pick(120, 1200))
-            .floor(tier.pick(20_000, 300_000))]
+            .floor(tier.pick(20_000, 300_000)),
+            // every length 10 / 50 / 250 times bigger (texts of up to 3000 words or words of up to
+            // 2000 symbols)
+            Lane::new("large", tier.pick(12_000, 200_000))
+                .cap(tier.pick(150, 1200))
+                .floor(tier.pick(800, 12_000)),
+        ]
     }
 
     fn rule() -> &'static str {
